@@ -1,6 +1,7 @@
 package fasthttp
 
 import (
+	stdgzip "compress/gzip"
 	"github.com/klauspost/compress/gzip"
 	"io"
 
@@ -202,6 +203,48 @@ func vhC07MultipartGzipLimit() {
 	vAssert("never-more-than-limit-plus-one-inflated-bytes-pulled", vdS.pulled <= L+1)
 	if n > L {
 		vAssert("oversized-inflated-form-is-refused", err != nil && f == nil)
+	} else {
+		vAssert("form-within-the-limit-is-parsed", err == nil && f != nil && len(f.Value["a"]) == 1 && f.Value["a"][0] == "v")
+	}
+}
+
+//verif:stub compress/gzip.NewReader
+func vstubStdGzipNewReader(r io.Reader) (*stdgzip.Reader, error) {
+	vdS.opened++
+	return &stdgzip.Reader{}, nil
+}
+
+//verif:stub (*compress/gzip.Reader).Read
+func vstubStdGzipRead(z *stdgzip.Reader, p []byte) (int, error) { return vdS.read(p) }
+
+type vdBodyStream struct{}
+
+func (vdBodyStream) Read(p []byte) (int, error) { return vdS.read(p) }
+
+// vhC07MultipartStreamLimit: MultipartFormWithLimit over a streamed request
+// body, identity or gzip (the standard library's gzip reader, stubbed like
+// the others): never more than L+1 bytes of the form are pulled, a form
+// longer than L is refused, a form within L is parsed.
+func vhC07MultipartStreamLimit() {
+	n := len(vdForm)
+	L := vIntRange("limit", 1, n+2)
+	seg := 1 + vChoose("seg", 3)
+	gz := vBool("gzip")
+	vdS = vdStream{data: []byte(vdForm), seg: seg}
+	var req Request
+	req.Header.SetMethod("POST")
+	req.Header.SetContentType("multipart/form-data; boundary=b")
+	if gz {
+		req.Header.SetContentEncoding("gzip")
+	}
+	req.SetBodyStream(vdBodyStream{}, -1)
+	f, err := req.MultipartFormWithLimit(L)
+	if gz {
+		vAssert("the-codec-was-asked", vdS.opened == 1)
+	}
+	vAssert("never-more-than-limit-plus-one-bytes-of-the-form-pulled", vdS.pulled <= L+1)
+	if n > L {
+		vAssert("oversized-form-is-refused", err != nil && f == nil)
 	} else {
 		vAssert("form-within-the-limit-is-parsed", err == nil && f != nil && len(f.Value["a"]) == 1 && f.Value["a"][0] == "v")
 	}
